@@ -23,7 +23,7 @@ LEVEL_TEXT = ("Base scenarios with depth-dependent sheared, time-dependent curre
 LEVEL_NOTE = "Equality is on f8 output, so 'bit for bit' is exact. Trusts the row tag column (an int instance variable) to follow the particle (C05)."
 RULE = ("case = base scenario + variant list. Non-trivial: at least one particle placed behind a removed/killed one in the state arrays survives for >= 3 further records "
         "(the cross-talk pattern); distinct by base parameters.")
-MANDATORY = ["float_day_time_axis", "repeat_pairs", "subset_pairs", "added_rows_pairs", "permuted_pairs", "killed_others_pairs", "time_shift_pairs", "deactivated_others_pairs", "empty_state_before_late_release_pairs", "death_then_output",
+MANDATORY = ["reversed_time", "subgrid_off_diagonal", "float_day_time_axis", "repeat_pairs", "subset_pairs", "added_rows_pairs", "permuted_pairs", "killed_others_pairs", "time_shift_pairs", "deactivated_others_pairs", "empty_state_before_late_release_pairs", "death_then_output",
              "trajectory_points_compared", "dense", "sparse", "survivor_behind_removed"]
 ASSUMPTIONS = ["diffusion off (as the property states)"]
 TIMEOUT = {"quick": 900, "thorough": 3400}
@@ -71,18 +71,26 @@ def base_spec(case: dict[str, Any]):
     layout = "dense" if case["idx"] % 4 == 3 else "sparse"
     # half of the bases store ocean_time as float days (frame times not exactly representable in that unit)
     tu = "days since 2019-12-01 00:00:00" if (case["idx"] // 2) % 2 else None
-    return dict(world=world, rows=rows, dt=dt, nsteps=nsteps, scheme=["EF", "RK2", "RK4"][case["idx"] % 3], layout=layout, time_units=tu)
+    return dict(world=world, rows=rows, dt=dt, nsteps=nsteps, scheme=["EF", "RK2", "RK4"][case["idx"] % 3], layout=layout, time_units=tu,
+                reversed=bool(case["idx"] % 5 == 4), subgrid=[2, imax - 1, 1, jmax - 2] if case["idx"] % 3 == 1 else None)
 
 
 def make_scn(b: dict[str, Any], rows: list[dict[str, Any]], kill_tag: dict[str, list[int]], shift_steps: int = 0,
              deactivate_tag: dict[str, list[int]] | None = None) -> dict[str, Any]:
     dt = b["dt"]
     start = str(tadd(C.T0, shift_steps * dt))
+    rev = bool(b.get("reversed"))
+    sg = -1 if rev else 1
     w = dict(b["world"], t0=start)
+    if rev:  # frames listed on the simulation axis: mirror them about the start, keep the amplitudes with their frames
+        fr = b["world"]["frames"]
+        order = sorted(range(len(fr)), key=lambda k: -fr[k])
+        w["frames"] = [-fr[k] for k in order]
+        w["vel"] = dict(b["world"]["vel"], frame_amp=[b["world"]["vel"]["frame_amp"][k] for k in order])
     if b.get("time_units"):
         w["time_units"] = b["time_units"]
-    rel = [[str(tadd(start, r["step"] * dt)), r["X"], r["Y"], r["Z"], r["rid"]] for r in rows]
-    run = dict(start=start, stop=str(tadd(start, b["nsteps"] * dt)), dt=dt, advection=b["scheme"], extra_forcing=["temp"],
+    rel = [[str(tadd(start, sg * r["step"] * dt)), r["X"], r["Y"], r["Z"], r["rid"]] for r in rows]
+    run = dict(start=start, stop=str(tadd(start, sg * b["nsteps"] * dt)), dt=dt, reversed=rev, subgrid=b.get("subgrid"), advection=b["scheme"], extra_forcing=["temp"],
                release=dict(columns=["release_time", "X", "Y", "Z", "rid"], rows=rel, header=True),
                state=dict(instance_variables=dict(rid="int", age="float", temp="float"), particle_variables=dict(release_time="time"), default_values=dict(age=0.0, temp=0.0)),
                ibm=dict(module=C.REC_IBM, age=True, kill_tag=kill_tag, deactivate_tag=deactivate_tag or {}, log=False),
@@ -96,7 +104,7 @@ def trajectories(recs, start: str, dt: int):
     order = []
     t0 = np.datetime64(start, "s")
     for r in recs:
-        step = int((r.time - t0) / np.timedelta64(1, "s")) // dt
+        step = abs(int((r.time - t0) / np.timedelta64(1, "s"))) // dt
         rids = np.asarray(r.vars["rid"]).astype(int)
         order.append(rids.tolist())
         for k, rid in enumerate(rids):
@@ -113,6 +121,8 @@ def run_case(case: dict[str, Any], wd: Path) -> dict[str, Any]:
     desc = dict(idx=case["idx"], scheme=b["scheme"], layout=b["layout"], nsteps=b["nsteps"], nrows=len(b["rows"]))
     sit[b["layout"]] = 1
     sit["float_day_time_axis"] = int(bool(b.get("time_units")))
+    sit["reversed_time"] = int(bool(b.get("reversed")))
+    sit["subgrid_off_diagonal"] = int(bool(b.get("subgrid")))
 
     def run(tag, rows, kill_tag, shift=0, deact=None):
         scn = make_scn(b, rows, kill_tag, shift, deact)
